@@ -132,10 +132,23 @@ namespace raptor
 
         CSRMatrix* communicate(CSRMatrix* A, const int has_vals = true)
         {
+            if (!has_vals)
+            {
+                // The sender packs values whenever the value array is non-empty:
+                // a pattern-only exchange must not hand it the stored values
+                std::vector<double> no_vals;
+                return communicate(A->idx1, A->idx2, no_vals, A->b_rows, A->b_cols, false);
+            }
             return communicate(A->idx1, A->idx2, get_vals(A), A->b_rows, A->b_cols, has_vals);
         }
         CSRMatrix* communicate_T(CSRMatrix* A, const int has_vals = true)
         {
+            if (!has_vals)
+            {
+                std::vector<double> no_vals;
+                return communicate_T(A->idx1, A->idx2, no_vals, A->n_rows, A->b_rows,
+                        A->b_cols, false);
+            }
             return communicate_T(A->idx1, A->idx2, get_vals(A), A->n_rows, A->b_rows,
                     A->b_cols, has_vals);
         }
